@@ -49,15 +49,14 @@ pub fn vx_set_copied<'a, 'b>(s: &'b IndexSet<&'a Url>) -> (r: CopiedRefs<'a, 'b>
     unimplemented!()
 }
 
-/// `set.iter().map(f).collect()` into an IndexSet<Url> (R7 chain wrapper): the images, in order, without
-/// duplicates
+/// `set.iter().map(f).collect()` into an IndexSet<Url> (R7 chain wrapper): the set of the images
 #[verifier::external_body]
 pub fn vx_set_map_collect<'a, F: FnMut(&&'a Url) -> Url>(s: &IndexSet<&'a Url>, f: F) -> (r: IndexSet<Url>)
     requires forall|x: &&'a Url| #[trigger] f.requires((x,)),
     ensures
-        forall|u: Url| is_seq(r).contains(u) ==> exists|i: int| 0 <= i < is_seq(*s).len() && f.ensures((&#[trigger] is_seq(*s)[i],), u),
-        forall|i: int| #![trigger is_seq(*s)[i]] 0 <= i < is_seq(*s).len() ==> exists|u: Url| f.ensures((&is_seq(*s)[i],), u) && #[trigger] is_seq(r).contains(u),
-        is_seq(r).no_duplicates(),
+        exists|m: Seq<Url>| #![trigger m.len()] m.len() == is_seq(*s).len()
+            && (forall|i: int| 0 <= i < m.len() ==> f.ensures((&is_seq(*s)[i],), #[trigger] m[i]))
+            && (forall|u: Url| #[trigger] is_seq(r).contains(u) <==> m.contains(u)),
 {
     unimplemented!()
 }
